@@ -171,6 +171,18 @@ func fromTdxAttestationProto(at *tpb.QuoteV4) string {
 	return extracttdx.GCETcbObjectName(mrtd)
 }
 
+// quoteToProto parses a raw TDX quote. The go-tdx-guest parser slices some declared sizes (e.g. the
+// QE authentication data) without checking them against the input, so a malformed quote is turned
+// into an error here instead of a panic.
+func quoteToProto(quote []byte) (out any, err error) {
+	defer func() {
+		if r := recover(); r != nil {
+			out, err = nil, fmt.Errorf("malformed TDX quote: %v", r)
+		}
+	}()
+	return tabi.QuoteToProto(quote)
+}
+
 // Attestation will try to deserialize a given attestation in any of the supported formats and
 // return it packaged in the most general format.
 func Attestation(quote []byte) (*tpmpb.Attestation, error) {
@@ -225,7 +237,7 @@ func Attestation(quote []byte) (*tpmpb.Attestation, error) {
 	}
 
 	// Attempt to decode as a raw TDX quote.
-	if tdxquote, err := tabi.QuoteToProto(quote); err == nil {
+	if tdxquote, err := quoteToProto(quote); err == nil {
 		switch tq := tdxquote.(type) {
 		case *tpb.QuoteV4:
 			tpmat.TeeAttestation = &tpmpb.Attestation_TdxAttestation{TdxAttestation: tq}
